@@ -60,6 +60,9 @@ type Interp struct {
 	busy   map[string]bool
 	// the three fields of resultTuple by position (value, flag, end), whatever they are called: name -> v | b | end
 	tupleField map[string]string
+	readOnly   map[string]int // parser method -> 1 read-only, 2 not, 3 being decided
+	// boolean parameters bound to literals while a specialised summary is computed (index -> value)
+	constParams map[int]bool
 }
 
 func New(v *variants.Variant) (*Interp, error) {
@@ -147,6 +150,110 @@ func (in *Interp) purePredicate(c *ast.CallExpr) ast.Expr {
 	return rs.Results[0]
 }
 
+// readOnlyMethod: the parser method stores nothing through its receiver, runs no code block and calls only
+// functions that are not parser methods (or parser methods that are read-only themselves) without handing them the
+// parser: whatever it returns, the parser is as it was.
+func (in *Interp) readOnlyMethod(name string) bool {
+	if in.readOnly == nil {
+		in.readOnly = map[string]int{}
+	}
+	switch in.readOnly[name] {
+	case 1:
+		return true
+	case 2, 3:
+		return false // not read-only, or being decided (recursion: not accepted)
+	}
+	in.readOnly[name] = 3
+	fd := in.V.Func("parser", name)
+	ok := fd != nil && fd.Body != nil && fd.Recv != nil && len(fd.Recv.List) == 1 && len(fd.Recv.List[0].Names) == 1
+	if ok {
+		if _, fixed := fixedRoles[name]; fixed {
+			ok = false
+		}
+	}
+	if ok {
+		recv := fd.Recv.List[0].Names[0].Name
+		rooted := func(e ast.Expr) bool {
+			for {
+				switch x := e.(type) {
+				case *ast.SelectorExpr:
+					e = x.X
+				case *ast.IndexExpr:
+					e = x.X
+				case *ast.StarExpr:
+					e = x.X
+				case *ast.ParenExpr:
+					e = x.X
+				case *ast.SliceExpr:
+					e = x.X
+				case *ast.Ident:
+					return x.Name == recv
+				default:
+					return false
+				}
+			}
+		}
+		ast.Inspect(fd.Body, func(n ast.Node) bool {
+			switch x := n.(type) {
+			case *ast.AssignStmt:
+				for _, l := range x.Lhs {
+					if _, isIdent := l.(*ast.Ident); !isIdent && rooted(l) {
+						ok = false
+					}
+					if id, isIdent := l.(*ast.Ident); isIdent && id.Name == recv {
+						ok = false
+					}
+				}
+			case *ast.IncDecStmt:
+				if rooted(x.X) {
+					ok = false
+				}
+			case *ast.UnaryExpr:
+				if x.Op == token.AND && rooted(x.X) {
+					ok = false // an address that could be stored through
+				}
+			case *ast.GoStmt, *ast.DeferStmt, *ast.SendStmt, *ast.FuncLit:
+				ok = false
+			case *ast.CallExpr:
+				for _, a := range x.Args {
+					if id, isIdent := a.(*ast.Ident); isIdent && id.Name == recv {
+						ok = false
+					}
+				}
+				switch f := x.Fun.(type) {
+				case *ast.SelectorExpr:
+					if id, isIdent := f.X.(*ast.Ident); isIdent && id.Name == recv {
+						if r, fixed := fixedRoles[f.Sel.Name]; fixed {
+							if r != RoleSliceFrom {
+								ok = false
+							}
+						} else if !in.readOnlyMethod(f.Sel.Name) {
+							ok = false
+						}
+					} else if f.Sel.Name == "run" {
+						ok = false
+					} else if rooted(f.X) {
+						// a method of something the parser holds (a map, a buffer): could modify it
+						ok = false
+					}
+				case *ast.Ident:
+					switch f.Name {
+					case "delete", "clear", "panic", "recover", "copy":
+						ok = false
+					}
+				}
+			}
+			return true
+		})
+	}
+	if ok {
+		in.readOnly[name] = 1
+	} else {
+		in.readOnly[name] = 2
+	}
+	return ok
+}
+
 // isP reports whether e is an identifier of type *parser.
 func (in *Interp) isP(e ast.Expr) bool {
 	id, ok := e.(*ast.Ident)
@@ -227,24 +334,43 @@ func (in *Interp) Run(fd *ast.FuncDecl) *Result { return in.runSeeded(fd, false)
 // Summary is the exported form of summary.
 func (in *Interp) Summary(name string) *Result { return in.summary(name) }
 
-func (in *Interp) summary(name string) *Result {
+func (in *Interp) summary(name string) *Result { return in.summaryWith(name, nil) }
+
+// summaryWith: the summary of a helper specialised for the boolean parameters that the call site passes as literals
+// (`p.parseLookahead(e, true)`): the helper is analysed with those parameters known, so a mode flag decides which of
+// its paths exist for this caller.
+func (in *Interp) summaryWith(name string, consts map[int]bool) *Result {
 	if in.sums == nil {
 		in.sums, in.busy = map[string]*Result{}, map[string]bool{}
 	}
-	if r, ok := in.sums[name]; ok {
+	key := name
+	if len(consts) > 0 {
+		var ks []int
+		for k := range consts {
+			ks = append(ks, k)
+		}
+		sort.Ints(ks)
+		for _, k := range ks {
+			key += fmt.Sprintf("|%d=%t", k, consts[k])
+		}
+	}
+	if r, ok := in.sums[key]; ok {
 		return r
 	}
-	if in.busy[name] || len(in.busy) >= 3 {
+	if in.busy[key] || len(in.busy) >= 3 {
 		return nil
 	}
 	fd := in.V.Func("parser", name)
 	if fd == nil || fd.Body == nil {
 		return nil
 	}
-	in.busy[name] = true
+	in.busy[key] = true
+	saved := in.constParams
+	in.constParams = consts
 	res := in.runSeeded(fd, true)
-	delete(in.busy, name)
-	in.sums[name] = res
+	in.constParams = saved
+	delete(in.busy, key)
+	in.sums[key] = res
 	return res
 }
 
@@ -315,6 +441,9 @@ func (in *Interp) runSeeded(fd *ast.FuncDecl, symbolicParams bool) *Result {
 					default:
 						if b, ok := o.Type().Underlying().(*types.Basic); ok && b.Info()&types.IsBoolean != 0 {
 							init.Env[o] = Val{K: "bool", A: "U", B: fmt.Sprintf("param:%d", i)}
+							if cv, known := in.constParams[i]; known {
+								init.Env[o] = Bool(cv)
+							}
 						}
 					}
 				}
@@ -589,6 +718,14 @@ func (r *run) effectful(c *ast.CallExpr) bool {
 			return false
 		}
 		if sel, ok := c.Fun.(*ast.SelectorExpr); ok && r.in.isP(sel.X) {
+			if r.in.readOnlyMethod(sel.Sel.Name) {
+				for _, a := range c.Args {
+					if r.in.isP(a) {
+						return true
+					}
+				}
+				return false // a parser method that only reads (a membership test given a name): an opaque value
+			}
 			return true // unknown parser method
 		}
 		for _, a := range c.Args {
@@ -867,7 +1004,16 @@ func (r *run) call(s *State, c *ast.CallExpr) []outcome {
 		return []outcome{{s, res}}
 	}
 	if sel, ok := c.Fun.(*ast.SelectorExpr); ok && in.isP(sel.X) && role == RoleNone {
-		if sum := in.summary(sel.Sel.Name); sum != nil && len(sum.Exits) > 0 {
+		var consts map[int]bool
+		for i, a := range c.Args {
+			if id, ok := a.(*ast.Ident); ok && (id.Name == "true" || id.Name == "false") {
+				if consts == nil {
+					consts = map[int]bool{}
+				}
+				consts[i] = id.Name == "true"
+			}
+		}
+		if sum := in.summaryWith(sel.Sel.Name, consts); sum != nil && len(sum.Exits) > 0 {
 			return r.applySummary(s, c, site, sum)
 		}
 	}
@@ -1558,7 +1704,24 @@ func (r *run) truthImpliesNotEOF(s *State, e ast.Expr) bool {
 		case token.LOR:
 			return r.truthImpliesNotEOF(s, x.X) && r.truthImpliesNotEOF(s, x.Y)
 		case token.LSS, token.LEQ:
-			v := r.eval(s, x.X)
+			lhs := x.X
+			// an integer conversion of the rune is the rune (int(cur) < len(table))
+			for {
+				if pe, ok := lhs.(*ast.ParenExpr); ok {
+					lhs = pe.X
+					continue
+				}
+				if ce, ok := lhs.(*ast.CallExpr); ok && len(ce.Args) == 1 {
+					if tv, ok := in.Info.Types[ce.Fun]; ok && tv.IsType() {
+						if b, ok := tv.Type.Underlying().(*types.Basic); ok && b.Info()&types.IsInteger != 0 {
+							lhs = ce.Args[0]
+							continue
+						}
+					}
+				}
+				break
+			}
+			v := r.eval(s, lhs)
 			if v.K == "rn" && v.A == s.Pt && v.B == "" {
 				if tv, ok := in.Info.Types[x.Y]; ok && tv.Value != nil {
 					if k, ok := constant.Int64Val(constant.ToInt(tv.Value)); ok && k <= 0xFFFD {
